@@ -19,7 +19,8 @@ THEOREMS = [P + t for t in (
     "rle_total", "rle_roundtrip", "rle_short_dst",
     "elf_history_irrelevant", "elf_page_spec",
     "dd_desc_position", "dd_locate_single", "sadump_position", "sadump_walk_spec",
-    "lkcd_get_spec", "lkcd_init_inv")]
+    "lkcd_get_spec", "lkcd_init_inv",
+    "elf_counts_plain", "elf_counts_xnum", "elf_loads_all", "elf_xnum_spec")]
 GEOM = ["file.format", "arch.byte_order", "arch.ptr_size", "arch.page_size", "max_pfn"]
 FAIL_TOKENS = ("nodata", "notimpl", "corrupt", "ioerr", "eof", "xlat", "oob", "no-layout")
 
@@ -246,6 +247,92 @@ class ElfL(Layout):
         out = ["L elf %d" % self.ps]
         for s in self.segs:
             out.append("L seg %d %d %d %d %d" % (s["off"], s["filesz"], s["paddr"], s["memsz"], (s["paddr"] + s["voff"]) & M64))
+        return out
+
+
+class ElfXL(ElfL):
+    """ELF core with so many program headers that the gABI extended numbering is needed (e_phnum = PN_XNUM, the real
+    number in sh_info of section header 0), as the kernel and makedumpfile -E write for a very fragmented memory map:
+    one-page LOAD segments in any table order, most of them without file data (memsz > filesz = 0: zero-filled or
+    missing), some with data on both sides of the 65535th table entry."""
+    kind = "elf"
+
+    def __init__(self, R, idx, seq=0):
+        rng = R.rng
+        self.machine, self.elfclass, self.be, self.ps, self.ptr = rng.choice([a for a in ELF_ARCHS if a[3] == 4096])
+        ps = self.ps
+        self.img = Image(rng, ps)
+        self.mode = "xnum"
+        # number of program headers incl. the NOTE entry: at the limit, just beyond, well beyond; below the limit the
+        # escape value may still be used (force)
+        self.nph = rng.choice([0xffff, 0x10000, 65600, 65600, 66000, 0xfffe if R.tier != "quick" else 65600])
+        self.shnum_field = rng.choice([1, 1, 0])
+        n = self.nph - 1
+        self.base = base = rng.randint(0, 3)
+        voff = rng.choice(VOFFS64 if self.elfclass == 64 else VOFFS32[:1])
+        self.voff = voff
+        tabpos = list(range(n))                    # tabpos[k] = position in the table of the segment at pfn base + 2k
+        if rng.random() < 0.5:
+            rng.shuffle(tabpos)
+        elif rng.random() < 0.5:
+            tabpos.reverse()
+        self.tabpos = tabpos
+        lim = 0xffff - 1                           # table position (among the LOADs) of the first entry beyond PN_XNUM
+        bypos = {tp: k for k, tp in enumerate(tabpos)}
+        want = {bypos[t] for t in range(max(0, lim - 3), min(n, lim + 4))} | {bypos[n - 1], bypos[0], n - 1, 0}
+        want |= {rng.randrange(n) for _ in range(30)}
+        self.datasegs = want
+        table = [None] * n
+        for k in range(n):
+            d = self.img.page(base + 2 * k) if k in want else None
+            table[tabpos[k]] = dict(paddr=(base + 2 * k) * ps, filesz=ps if d is not None else 0, memsz=ps, voff=voff, data=d)
+        self.path = R.path("c01-%d.elf" % idx)
+        self.info = dumpgen.write_elf_table(self.path, table, ps=ps, machine=self.machine, elfclass=self.elfclass, be=self.be,
+                                            notes=vmcoreinfo_note(ps, self.be, self.elfclass), shnum_field=self.shnum_field,
+                                            force_xnum=True)
+        self.table = table
+        self.nseg = n
+        self.paths = [self.path]
+        self.filebytes = {0: open(self.path, "rb").read()}
+        self.geom = {"file.format": {"str:elf"}, "arch.byte_order": {"num:%d" % (0 if self.be else 1)},
+                     "arch.ptr_size": {"num:%d" % self.ptr}, "arch.page_size": {"num:%d" % ps},
+                     "max_pfn": {"num:%d" % (base + 2 * (n - 1) + 1)}}
+        self.segs = []                              # (describe() only)
+        ks = set(want) | {rng.randrange(n) for _ in range(40)}
+        self.read_ks = sorted(ks)
+
+    def describe(self):
+        return dict(kind="elf", mode="xnum", machine=self.machine, elfclass=self.elfclass, be=self.be, ps=self.ps,
+                    program_headers=self.nph, header=self.info, first_pfn=self.base,
+                    note="LOAD segment k covers frame first_pfn + 2k (memsz = one page); table position tabpos[k] + 1",
+                    segments_with_file_data={str(k): self.tabpos[k] + 1 for k in sorted(self.datasegs)})
+
+    def spaces(self):
+        ps, pa = self.ps, set()
+        for k in self.read_ks:
+            p = self.base + 2 * k
+            pa |= {p * ps, (p + 1) * ps}
+        pa = sorted(pa)
+        return [(1, pa), (2, [a + self.voff for a in pa if a + self.voff <= M64 - ps])]
+
+    def expect(self, as_, addr, zx):
+        ps = self.ps
+        pa = addr if as_ == 1 else addr - self.voff
+        p = pa // ps - self.base
+        if pa >= 0 and p >= 0 and p % 2 == 0 and p // 2 < self.nseg:
+            if p // 2 in self.datasegs:
+                return ("ok", self.img.page(pa // ps))
+            if zx:
+                return ("ok", bytes(ps))
+        return ("fail", {"nodata"} if as_ == 1 else None)
+
+    def model_lines(self):
+        out = ["L elf %d" % self.ps]
+        mask = M64 if self.elfclass == 64 else 0xffffffff
+        for t, s in enumerate(self.table):
+            out.append("L seg %d %d %d %d %d %d" % (s["off"], s["filesz"], s["paddr"], s["memsz"], (s["paddr"] + s["voff"]) & mask, t + 1))
+        i = self.info
+        out.append("L ehdr %d %d %d %d %d" % (i["e_phnum"], i["e_shnum"], i["e_shoff"], i["sh_size"], i["sh_info"]))
         return out
 
 
@@ -736,8 +823,9 @@ def run_batch(R, exe, first, count, seq, S):
     difference"""
     rng = R.rng
     layouts, lines, meta = [], [], []
-    for li in range(first, first + count):
-        cls = KINDS[li % len(KINDS)]
+    # one dump per batch with more program headers than e_phnum can hold
+    for li in list(range(first, first + count)) + [100000 + first]:
+        cls = KINDS[li % len(KINDS)] if li < 100000 else ElfXL
         seq[cls] = seq.get(cls, -1) + 1
         L = cls(R, li, seq[cls])
         L.li = len(layouts)
